@@ -195,6 +195,14 @@ func (r *runner) generate(active []*target) (ok bool, output string) {
 		time.Sleep(time.Duration(5*(attempt+1)) * time.Second)
 		out, code, timedOut = r.command(10*time.Minute, wdir, []string{"GOPACKAGE=w", "GOFILE=w.go", "GOLINE=1", "GOARCH=amd64", "GOOS=linux"}, r.gombok)
 	}
+	for attempt := 0; !timedOut && envTrouble.MatchString(out); attempt++ {
+		// the Go build cache / toolchain was disturbed while gombok loaded the package
+		if attempt == 2 {
+			panic(gaveUp{fmt.Sprintf("%s: gombok could not load the package: %s", r.ps.Name, excerpt(out, 4))})
+		}
+		time.Sleep(time.Duration(10*(attempt+1)) * time.Second)
+		out, code, timedOut = r.command(10*time.Minute, wdir, []string{"GOPACKAGE=w", "GOFILE=w.go", "GOLINE=1", "GOARCH=amd64", "GOOS=linux"}, r.gombok)
+	}
 	if timedOut {
 		// 300 times the normal running time: a hang cannot be told from an overloaded machine,
 		// so this is "not decided", never a violation
@@ -205,6 +213,10 @@ func (r *runner) generate(active []*target) (ok bool, output string) {
 	}
 	return true, out
 }
+
+// envTrouble recognises output of the Go tools that speaks of the environment (build cache
+// trimmed under our feet, toolchain files missing, memory), not of the program.
+var envTrouble = regexp.MustCompile(`go-build[^\n]*no such file|could not import [^\n]*\(open |without types was imported|signal: killed|cannot allocate memory|no space left on device|is not in std|internal error: package`)
 
 type emitted struct {
 	decl       *ast.FuncDecl
@@ -334,7 +346,9 @@ func usesIdent(fd *ast.FuncDecl, name string) bool {
 
 // checkSignature decides "a generic type yields a function taking one instance per type
 // parameter actually used": every parameter is an instance of this typeclass for a distinct
-// type parameter that occurs in a field, and the body refers to it. Returns the law calls.
+// type parameter that occurs somewhere in a field type (a type argument of a recursive self
+// reference counts), and the body refers to it. A missing parameter shows up as a compile
+// error of the emitted body or of the law call. Returns the law calls.
 func (r *runner) checkSignature(t *target, em *emitted) (calls []lawCall, bad string) {
 	if em.decl == nil { // emitted as a variable
 		if len(t.TParams) > 0 {
@@ -417,7 +431,7 @@ func (r *runner) build() (string, bool) {
 		if timedOut {
 			panic(gaveUp{fmt.Sprintf("%s: go build did not finish within 15 minutes", r.ps.Name)})
 		}
-		if code != 0 && (strings.Contains(out, "signal: killed") || strings.Contains(out, "cannot allocate memory") || strings.Contains(out, "no space left on device")) {
+		if code != 0 && envTrouble.MatchString(out) {
 			// the toolchain was killed from outside (memory pressure of the machine): not a verdict
 			if attempt < 2 {
 				time.Sleep(time.Duration(5*(attempt+1)) * time.Second)
